@@ -31,20 +31,25 @@ func tunnelMesh(collisionFree bool, maxN int) *Mesh {
 		m = NewMesh(n, []string{"star", "diamond", "tree", "ring", "random"}[simrt.Choose(5, "topo")])
 	}
 	iv := []time.Duration{20 * time.Second, 5 * time.Second}[simrt.Choose(2, "advint")]
+	m.TunnelExit = 1 + simrt.Choose(len(m.Nodes)-1, "exit")
 	for j, nd := range m.Nodes {
 		nd.Cfg.Routing.AdvertiseInterval = iv
 		nd.Cfg.Routing.RouteTTL = 10 * time.Minute
 		nd.Cfg.Connections.IdleThreshold = 60 * time.Second // keepalive interval and idle timeout of exit connections
+		nd.Cfg.UDP.IdleTimeout = 60 * time.Second
 		if j == 0 && collisionFree {
 			continue
 		}
 		nd.Cfg.Exit.Enabled = true
 		nd.Cfg.Exit.Routes = []string{fmt.Sprintf("10.%d.0.0/16", 100+j)}
+		if collisionFree && j == m.TunnelExit {
+			// a UDP association needs a route that covers 0.0.0.0
+			nd.Cfg.Exit.Routes = append(nd.Cfg.Exit.Routes, "0.0.0.0/0")
+		}
 		nd.Cfg.Exit.DomainRoutes = []string{fmt.Sprintf("*.svc%d.example.com", j)}
 	}
 	lat := []time.Duration{0, 2 * time.Millisecond, 20 * time.Millisecond, 120 * time.Millisecond}[simrt.Choose(4, "latency")]
 	m.Net.DefaultLatency = func(l *simnet.Link) [2]time.Duration { return [2]time.Duration{lat, lat} }
-	m.TunnelExit = 1 + simrt.Choose(len(m.Nodes)-1, "exit")
 	simrt.Eventf("tunnel mesh n=%d collisionFree=%v edges=%v latency=%v exit=%d", len(m.Nodes), collisionFree, m.Edges, lat, m.TunnelExit)
 	return m
 }
@@ -119,6 +124,11 @@ func runTunnels(prop string) {
 	for i := 0; i < k; i++ {
 		ts.Add(drawTunnel(m, collisionFree, maxBytes))
 	}
+	if collisionFree && prop != "C07" && simrt.Chance(1, 3, "udp-tunnel") {
+		u := &Tunnel{Kind: "udp", Ingress: 0, Exit: m.TunnelExit, Up: 1 + simrt.Choose(30, "udpcount")}
+		ts.Add(u)
+		simrt.Probe("udp_tunnel")
+	}
 	if (prop == "C16" || prop == "C07") && collisionFree && simrt.Chance(1, 8, "stall-scenario") {
 		// a slow reader on one tunnel while a sibling on the same connections
 		// moves more frames than any per-connection queue holds
@@ -186,11 +196,14 @@ func (ts *TunnelSet) inspectData(ev *FrameEvent) {
 	if len(ev.Payload) > protocol.MaxPayloadSize {
 		simrt.Failf("frame-payload-too-large", "frame payload exceeds 16384 bytes", "%s", ev)
 	}
-	if ev.Type != protocol.FrameStreamData {
+	if ev.Type != protocol.FrameStreamData && ev.Type != protocol.FrameUDPDatagram {
 		return
 	}
 	ts.DataFrames++
 	p := ev.Payload
+	if ev.Type == protocol.FrameUDPDatagram {
+		simrt.Probe("c04_udp_datagram_inspected")
+	}
 	for i := 0; i+8 <= len(p); i++ {
 		if id, ok := ts.markers[binary.LittleEndian.Uint64(p[i:])]; ok {
 			simrt.Failf("plaintext-on-mesh-link", "application bytes visible in a relayed frame", "frame %s carries plaintext of tunnel %d at payload offset %d", ev, id, i)
@@ -204,6 +217,10 @@ func (ts *TunnelSet) inspectData(ev *FrameEvent) {
 
 // checkKey is the C03 oracle for one tunnel, evaluated right after its open completed.
 func (ts *TunnelSet) checkKey(t *Tunnel) {
+	if t.Kind == "udp" {
+		ts.checkUDPKey(t)
+		return
+	}
 	if t.key == nil {
 		simrt.Failf("tunnel-without-key", "opened tunnel has no session key at the ingress", "tunnel %d (%s)", t.ID, t.Kind)
 	}
@@ -248,6 +265,42 @@ func (ts *TunnelSet) checkKey(t *Tunnel) {
 	simrt.Probe("c03_key_pair_compared_" + t.Kind)
 	if !bytes.Equal(rk[:], k[:]) {
 		simrt.Failf("ends-derived-different-keys", "ingress and exit hold different session keys ("+t.Kind+")", "tunnel %d", t.ID)
+	}
+}
+
+// checkUDPKey: the UDP association's key at the ingress equals the one at the exit.
+func (ts *TunnelSet) checkUDPKey(t *Tunnel) {
+	if len(t.hops) == 0 {
+		simrt.Probe("c03_udp_open_not_observed")
+		return
+	}
+	first, last := t.hops[0], t.hops[len(t.hops)-1]
+	ik := ts.m.Nodes[t.Ingress].A.VerifUDPIngressKeys()[first.ID]
+	var ek *[32]byte
+	if h := ts.m.Nodes[t.Exit].A.VerifUDPHandler(); h != nil {
+		if a := h.GetAssociation(last.ID); a != nil && a.SessionKey != nil {
+			kk := a.SessionKey.Key()
+			ek = &kk
+		}
+	}
+	if ik == nil || ek == nil {
+		simrt.Probe("c03_responder_record_gone")
+		return
+	}
+	k := ik.Key()
+	if k == ([32]byte{}) {
+		simrt.Failf("tunnel-without-key", "opened tunnel has an all-zero session key at the ingress", "tunnel %d (udp)", t.ID)
+	}
+	if ts.keys == nil {
+		ts.keys = map[[32]byte]int{}
+	}
+	if o, dup := ts.keys[k]; dup && o != t.ID {
+		simrt.Failf("tunnels-share-a-key", "two tunnels derived the same session key", "tunnels %d and %d", o, t.ID)
+	}
+	ts.keys[k] = t.ID
+	simrt.Probe("c03_key_pair_compared_udp")
+	if !bytes.Equal(ek[:], k[:]) {
+		simrt.Failf("ends-derived-different-keys", "ingress and exit hold different session keys (udp)", "tunnel %d", t.ID)
 	}
 }
 
@@ -455,6 +508,14 @@ func (ts *TunnelSet) checkDrained() {
 		}
 		if n := nd.A.VerifStreamManager().PendingCount(); n != 0 {
 			left += fmt.Sprintf(" pending=%d", n)
+		}
+		if h := nd.A.VerifUDPHandler(); h != nil && h.ActiveCount() != 0 {
+			left += fmt.Sprintf(" udp.associations=%d", h.ActiveCount())
+		}
+		for _, k := range []string{"udp_ingress_base", "udp_ingress_local"} {
+			if n := nd.A.VerifBookkeepingSizes()[k]; n != 0 {
+				left += fmt.Sprintf(" %s=%d", k, n)
+			}
 		}
 		if left != "" {
 			for _, t := range ts.T {
